@@ -393,26 +393,41 @@ def _main_batch(check, args, tier, seed, t0):
             continue
         # choose the smallest recorded trace of this class
         i, v, rec = min(lst, key=lambda t: len(jdump(t[2])) if t[2] else 1 << 30)
+        replayable = True
         try:
-            first = exec_isolated(check, rec)
+            first = None
+            for attempt in range(4):
+                first = exec_isolated(check, rec)
+                if has_key(first, key):
+                    break
             if not has_key(first, key):
-                raise HarnessError('violation %s of run %d does not reproduce from its recorded trace' % (key, i))
-            small, nrep = minimise(check, rec, key)
-            final = exec_isolated(check, small)
-            if not has_key(final, key):
-                small, final = rec, first
-            path = write_replay(check, small, key, seed, i, final)
-            # replay once more in a fresh interpreter: must fail identically
-            p = subprocess.run([sys.executable, '-m', 'checks.main', check.id, '--replay', path],
-                               cwd=VERIF, env=dict(os.environ, VERIF_NO_REEXEC='1'),
-                               stdout=subprocess.PIPE, stderr=subprocess.PIPE, timeout=300)
-            if p.returncode != 1:
-                raise HarnessError('replay file %s did not reproduce in a fresh process (exit %d): %s' % (
-                    path, p.returncode, p.stdout.decode()[-800:] + p.stderr.decode()[-800:]))
+                # Observed in the batch but not when the recorded trace is executed again: the failure
+                # depends on something outside the simulator's control (typically object addresses /
+                # id() reuse).  It is still a violation; it is reported with the unminimised trace and
+                # marked as not replayable rather than being hidden behind a harness error.
+                replayable = False
+                small, nrep = rec, 0
+                final = {'violations': [v], 'digest': first['digest']}
+                path = write_replay(check, small, key, seed, i, final)
+            else:
+                small, nrep = minimise(check, rec, key)
+                final = exec_isolated(check, small)
+                if not has_key(final, key):
+                    small, final = rec, first
+                path = write_replay(check, small, key, seed, i, final)
+                # replay once more in a fresh interpreter: must fail identically
+                p = subprocess.run([sys.executable, '-m', 'checks.main', check.id, '--replay', path],
+                                   cwd=VERIF, env=dict(os.environ, VERIF_NO_REEXEC='1'),
+                                   stdout=subprocess.PIPE, stderr=subprocess.PIPE, timeout=300)
+                if p.returncode != 1:
+                    replayable = False
         except HarnessError as e:
             print('HARNESS-ERROR property=%s %s' % (check.id, e))
             return 2
         vv = [x for x in final['violations'] if CheckBase.vkey(x) == key][0]
+        if not replayable:
+            print('NOTE: the next violation was observed in the batch but does not replay deterministically '
+                  '(depends on state outside the simulator, e.g. object addresses); trace is unminimised')
         print('violation: oracle=%s site=%s runs=%d first_run=%d minimised_with=%d replays' % (
             key[0], key[1], len(lst), i, nrep))
         print('  detail: %s' % json.dumps(vv.get('detail'))[:1200])
